@@ -39,6 +39,7 @@ theorem applyConf_ok (le : α → α → Prop) (c : Conf α) (op : Op α ρ S) (
   | sample => exact hc
   | stepCount a b => exact hc
   | sampleTo s d => exact hc
+  | steerTo s d => exact hc
 
 theorem confAfter_ok (le : α → α → Prop) :
     ∀ (ops : List (Op α ρ S)) (c : Conf α), ConfOK le c → (∀ op ∈ ops, OpOK le op) → ConfOK le (confAfter c ops) := by
@@ -89,6 +90,22 @@ theorem stepM_ok (le : α → α → Prop) (P : Params α ρ S δ) (hd : DrawOK 
     obtain ⟨h1, h2, k, hk, hnk⟩ := hs
     have hx := drawsAll_ok le P hd st.conf.cb st.conf.minSteps st.conf.maxSteps hc.1 hc.2 st.gen (u, k) hk
     exact ⟨hx.1, Nat.le_trans hnk hx.2, h1, h2⟩
+  | steerTo src dest =>
+    intro u n s' hr
+    simp only [steeredTo] at hr
+    cases hs : P.steer src dest with
+    | none => rw [hs] at hr; cases hr
+    | some ud =>
+      obtain ⟨u0, d⟩ := ud
+      rw [hs] at hr
+      have e := Option.some.inj hr
+      have e1 : u0 = u := (Prod.mk.inj e).1
+      have e2 : (pwv (P.step st.conf.dt) P.valid src u0 (P.toSteps d st.conf.dt)).1 = n := (Prod.mk.inj (Prod.mk.inj e).2).1
+      have e3 : (pwv (P.step st.conf.dt) P.valid src u0 (P.toSteps d st.conf.dt)).2 = s' := (Prod.mk.inj (Prod.mk.inj e).2).2
+      subst e1
+      have sp := pwv_spec' (P.step st.conf.dt) P.valid src u0 (P.toSteps d st.conf.dt)
+      rw [e2, e3] at sp
+      exact ⟨⟨d, rfl, sp.2.2.2, sp.2.2.1⟩, sp.1, sp.2.1⟩
 
 /-- the `i`-th output of a run is the `i`-th operation applied to the state after the first `i` operations -/
 theorem run_getElem? (P : Params α ρ S δ) (cached : Bool) :
